@@ -582,7 +582,7 @@ def make_o3():
 
 
 # ------------------------------------------------------------------ O4: the bytes that are hashed (finite exploration, the codec is C code)
-BYTE_PAIRS = [("caf\udcc3\udca9", "caf\u00e9"), ("a\udc80b", "ab"), ("a\ud800", "a?"), ("x\udcff", "x\ufffd"), ("\udce2\udc82\udcac", "\u20ac"), ("p\udc41", "pA")]
+BYTE_PAIRS = [("\u037e", ";"), ("\u212a", "K"), ("e\u0301", "\u00e9"), ("\u2126", "\u03a9"), ("caf\udcc3\udca9", "caf\u00e9"), ("a\udc80b", "ab"), ("a\ud800", "a?"), ("x\udcff", "x\ufffd"), ("\udce2\udc82\udcac", "\u20ac"), ("p\udc41", "pA")]
 BYTE_SLOTS = ["name", "vars.x", "tasks.0.name", "key"]
 
 
@@ -679,7 +679,7 @@ def obligations(tier):
                    bounds={"edits": [list(e) for e in EDITS], "changed strings": "old and new value symbolic, <= %d chars of the same alphabet, assumed different" % L},
                    encoded=enc[:6], budget_s=900 if thorough else 150, replay="edit", check_sample=True),
         Obligation("O4-hashed-bytes", make_o4(), ["digest-covers"],
-                   desc="text with lone surrogates next to the text a lenient encoder would turn it into (surrogateescape / ignore / replace), as a value, a task name and a key: the two plays never share a digest (text that cannot be encoded is refused); finite exploration, the codec is C code",
+                   desc="text that a normalising or lenient step would identify with other text: canonically equivalent spellings (NFC) and lone surrogates next to what surrogateescape / ignore / replace would turn them into, as a value, a task name and a key: the two plays never share a digest (text that cannot be encoded is refused); finite exploration, the codec is C code",
                    bounds={"pairs": [repr(x) for x in BYTE_PAIRS], "positions": BYTE_SLOTS}, encoded=[PV.serialize_play, PV.hash_play], budget_s=60, replay="collision", check_sample=True),
         Obligation("O3-exclusion-rules", make_o3(), ["exclusion-rules"],
                    desc="exclusion requests built from a segment pool; missing vars / signature / exclusion list; revocation look-up",
